@@ -64,6 +64,23 @@ def law_cases():
     cases += [
         ("do 1 / 0 catch 'divide by zero' 'wrong' catch 'ERROR' 'right' end", ('text', "'right'")),
     ]
+    # an error on its way out of a call stays the same error whatever the call's ARGUMENTS are: values whose own rendering fails,
+    # is user-defined or is long must not replace it, change it or make the handler miss it (built-in and user functions, methods,
+    # nested calls; handlers by value at every level)
+    odd_args = ["<*_str_ = fn(self) error 'inner'*>", "<*_str_ = fn(self) 1 / 0*>", "<*_str_ = fn(self) self->missing()*>", "<*_str_ = 5*>",
+                "<*_str_ = fn(self) 5*>", "<*_str_ = fn() 'x'*>", "<*_str_ = fn(self) 'nice'*>", "[<*_str_ = fn(self) error 'inner'*>]",
+                "<<<'k' => <*_str_ = fn(self) error 'inner'*>>>>", "'" + "x" * 200 + "'", "[" + ", ".join(str(i) for i in range(60)) + "]", "fn(q) q", "stdout"]
+    for a in odd_args:
+        cases += [
+            (f"def o = {a}; def f(x) error 'orig'; do f(o) catch 'orig' 'caught orig' catch all 'caught other' end", ('text', "'caught orig'")),
+            (f"def o = {a}; def f(x) 1 / 0; do f(o) catch 'ERROR' 'caught runtime' catch all 'caught other' end", ('text', "'caught runtime'")),
+            (f"def o = {a}; def g(y) error [1, 2]; def f(x) g(x); do f(o) catch [1, 2] 'caught list' catch all 'caught other' end", ('text', "'caught list'")),
+            (f"def o = {a}; def f(x) error 'orig'; do do f(o) catch 'nomatch' 0 end catch 'orig' 'outer' end", ('text', "'outer'")),
+            (f"def o = {a}; def f(x) error 'orig'; f(o)", ('error', "'orig'")),
+            (f"def o = {a}; do substr(o, 'z') catch 'ERROR' 'builtin' catch all 'other' end", ('text', "'builtin'")),
+            (f"def o = {a}; def m = <*go = fn(self, x) error 7*>; do m->go(o) catch 7 'method' catch all 'other' end", ('text', "'method'")),
+            (f"def o = {a}; def log = []; def f(x) do error 'orig' finally append(log, 'fin') end; do f(o) catch 'orig' append(log, 'h') end; log", ('text', "['fin', 'h']")),
+        ]
     return cases
 
 
